@@ -27,6 +27,8 @@ func c02(c *Ctx) {
 	c02hot(c)
 	c02disabled(c)
 	c02users(c)
+	// the rolling window whose sums the decision is computed from (same structure rules as C16.R5)
+	c16windowAs(c, "C02.R8")
 }
 
 func loadCall(name string) px.Pred {
